@@ -301,6 +301,12 @@ pub fn run(tier: &str, seed: u64, replay: Option<String>) -> i32 {
         vec![MEdit::ScaleAll { gptr: "/cons/materials/*/conductivity".into(), factor: 0.0001 }],
         vec![MEdit::ScaleAll { gptr: "/walls/*/geometry/polygon/*/*".into(), factor: 0.02 }],
         vec![MEdit::ScaleAll { gptr: "/walls/*/geometry/polygon/*/*".into(), factor: 30.0 }],
+        // windows moved outside their walls (a wrong sill height, a wall edited afterwards)
+        vec![MEdit::ScaleAll { gptr: "/windows/*/geometry/position/*".into(), factor: 25.0 }],
+        vec![MEdit::ScaleAll { gptr: "/windows/*/geometry/position/1".into(), factor: 4.0 }],
+        vec![MEdit::ScaleAll { gptr: "/windows/*/geometry/position/0".into(), factor: -1.0 }],
+        vec![MEdit::ShareIdAcross { a: "wallcons".into(), b: "wincons".into() }],
+        vec![MEdit::ShareIdAcross { a: "spaces".into(), b: "walls".into() }],
         vec![MEdit::SetMeta { key: "global_ventilation_l_s".into(), value: json!(0.0) }],
         vec![MEdit::SetMeta { key: "n50_test_ach".into(), value: json!(0.01) }],
         vec![MEdit::SetMeta { key: "num_dwellings".into(), value: json!(0) }],
